@@ -1,111 +1,78 @@
+// gosym: solver-based checks of zllovesuki/specter (see /verif/DESIGN.md).
+//
+//	gosym check <ID> --tier quick|thorough [--only <obligation>] [-v]
+//	gosym replay <file>
 package main
 
 import (
-	"encoding/json"
-	"flag"
 	"fmt"
 	"os"
 	"path/filepath"
-	"sort"
-	"strings"
-	"time"
+	"strconv"
 
-	"golang.org/x/tools/go/packages"
-	"golang.org/x/tools/go/ssa"
-	"golang.org/x/tools/go/ssa/ssautil"
-
-	"gosym/interp"
-	"gosym/solver"
+	"gosym/driver"
 )
 
-func main() {
-	repo := flag.String("repo", "/repo", "repository root")
-	pkgPath := flag.String("pkg", "", "package dir relative to repo (e.g. ./spec/chord)")
-	harness := flag.String("harness", "", "harness file to inject into the package")
-	rt := flag.String("rt", "", "zzverifrt source file")
-	fn := flag.String("fn", "", "harness function name")
-	maxPaths := flag.Int("paths", 10000, "path budget")
-	logq := flag.String("logq", "", "write solver log here")
-	flag.Parse()
-
-	t0 := time.Now()
-	overlay := map[string][]byte{}
-	b, err := os.ReadFile(*rt)
-	check(err)
-	overlay[filepath.Join(*repo, "zzverifrt", "rt.go")] = b
-	b, err = os.ReadFile(*harness)
-	check(err)
-	overlay[filepath.Join(*repo, *pkgPath, "zz_verif_harness.go")] = b
-	if extra := os.Getenv("EXTRA_OVERLAY"); extra != "" {
-		for _, kv := range strings.Split(extra, ",") {
-			p := strings.SplitN(kv, "=", 2)
-			b, err := os.ReadFile(p[1])
-			check(err)
-			overlay[p[0]] = b
+func verifDir() string {
+	if v := os.Getenv("VERIF_DIR"); v != "" {
+		return v
+	}
+	exe, err := os.Executable()
+	if err == nil {
+		d := filepath.Dir(filepath.Dir(exe))
+		if _, err := os.Stat(filepath.Join(d, "properties.jsonl")); err == nil {
+			return d
 		}
 	}
-	cfg := &packages.Config{Mode: packages.LoadAllSyntax, Dir: *repo, Overlay: overlay}
-	pkgs, err := packages.Load(cfg, *pkgPath)
-	check(err)
-	if packages.PrintErrors(pkgs) > 0 {
-		fmt.Println("INCONCLUSIVE harness does not build")
-		os.Exit(0)
-	}
-	prog, spkgs := ssautil.AllPackages(pkgs, ssa.InstantiateGenerics)
-	prog.Build()
-	tLoad := time.Since(t0)
-	f := spkgs[0].Func(*fn)
-	if f == nil {
-		fmt.Println("no such function", *fn)
-		os.Exit(2)
-	}
-	bounds := map[string]int{}
-	for _, kv := range strings.Split(os.Getenv("BOUNDS"), ",") {
-		var k string
-		var v int
-		if n, _ := fmt.Sscanf(strings.Replace(kv, "=", " ", 1), "%s %d", &k, &v); n == 2 {
-			bounds[k] = v
-		}
-	}
-	eng := &interp.Engine{Bounds: bounds, Prog: prog, Intrinsics: interp.DefaultIntrinsics(), MaxLoop: 64, MaxDepth: 64, MaxWidth: 64, MaxPreempt: 2}
-	eng.NewSolver = func() (*solver.Solver, error) {
-		s, err := solver.New("z3", []string{"-in"}, 20000)
-		if err == nil && *logq != "" {
-			lf, _ := os.Create(*logq)
-			s.Log = lf
-		}
-		return s, err
-	}
-	t1 := time.Now()
-	err = eng.Explore(f, *maxPaths)
-	tRun := time.Since(t1)
-	out := map[string]int{}
-	for _, p := range eng.Paths {
-		out[p.Outcome]++
-		if p.Outcome != "ok" && p.Outcome != "assume" {
-			fmt.Printf("  path %s: %s\n", p.Outcome, p.Msg)
-		}
-	}
-	fmt.Printf("load %.1fs run %.2fs paths=%d outcomes=%v queries=%d solver=%.2fs decisions=%d err=%v\n", tLoad.Seconds(), tRun.Seconds(), len(eng.Paths), out, eng.Queries, eng.SolverTime, eng.Decisions, err)
-	var fns []string
-	for fn, n := range eng.Funcs {
-		fns = append(fns, fmt.Sprintf("%s(%d)", fn.String(), n))
-	}
-	sort.Strings(fns)
-	fmt.Println("functions encoded:", strings.Join(fns, " "))
-	for l, m := range eng.Reached {
-		j, _ := json.Marshal(m)
-		fmt.Printf("reach %s: %s\n", l, j)
-	}
-	for _, v := range eng.Violations {
-		j, _ := json.Marshal(v.Model)
-		fmt.Printf("VIOLATION-CANDIDATE %s (%s %s): %s\n", v.Label, v.Kind, v.Detail, j)
-	}
+	wd, _ := os.Getwd()
+	return wd
 }
 
-func check(err error) {
-	if err != nil {
-		fmt.Println("error:", err)
+func main() {
+	if len(os.Args) < 3 {
+		fmt.Println("usage: gosym check <ID> --tier quick|thorough | gosym replay <file>")
 		os.Exit(2)
 	}
+	cfg := &driver.Config{Verif: verifDir(), Tier: "quick"}
+	if t := os.Getenv("VERIF_TIER"); t == "quick" || t == "thorough" {
+		cfg.Tier = t
+	}
+	if s := os.Getenv("VERIF_SEED"); s != "" {
+		if n, err := strconv.ParseInt(s, 10, 64); err == nil {
+			cfg.Seed = n
+		}
+	}
+	if w := os.Getenv("VERIF_WORKERS"); w != "" {
+		cfg.Workers, _ = strconv.Atoi(w)
+	}
+	args := os.Args[3:]
+	for i := 0; i < len(args); i++ {
+		switch args[i] {
+		case "--tier":
+			i++
+			if i < len(args) {
+				cfg.Tier = args[i]
+			}
+		case "--only":
+			i++
+			if i < len(args) {
+				cfg.Only = args[i]
+			}
+		case "-v":
+			cfg.Verbose = true
+		case "--repo":
+			i++
+			if i < len(args) {
+				cfg.Repo = args[i]
+			}
+		}
+	}
+	switch os.Args[1] {
+	case "check":
+		os.Exit(driver.Check(cfg, os.Args[2]))
+	case "replay":
+		os.Exit(driver.ReplayPath(cfg, os.Args[2]))
+	}
+	fmt.Println("unknown command", os.Args[1])
+	os.Exit(2)
 }
